@@ -44,6 +44,7 @@ pub fn base_cfg(prop: &'static str, label: String, cb: usize, hb: usize, events:
         deprecated_ctor: false,
         refine: false,
         refine_depth: 1,
+        refine_probe: None,
         digest: None,
     }
 }
@@ -670,6 +671,10 @@ pub fn c13(rep: &mut Report, tier: &str, seed: u64) {
             Mon { framing: true, dispatch: true, term: true, invariants: true, ..Default::default() },
         );
         let name = cfg.label.clone();
+        let mut cfg = cfg;
+        // behaviour-refined key over a probe subset (the alphabet has ~1000 output events)
+        cfg.refine = true;
+        cfg.refine_probe = Some(vec![ch('a'), k(Key::Bs), k(Key::Left), k(Key::Right), k(Key::Up), k(Key::Lf), wr(""), wr("x")]);
         run_raw(rep, cfg, &caps, seed);
         rep.required.push((name, "framing_write".into()));
     }
